@@ -119,6 +119,54 @@ def oracle(case):
     return {"nontrivial": bool(proper and nclu >= 2), "classes": [s["cls"], "idx:" + mode]}
 
 
+@st.composite
+def large_case(draw):
+    cls = draw(st.sampled_from(INDUCTIVE + ["Douglas", "Douglas"]))
+    s = draw(E.est_spec(classes=[cls], n_max=12, d_max=5, iter_max=1, k_max=4, hidden_max=4, n_min=4, cuts_max=3,
+                        kernel_forms=("named",), metric_forms=("named",), metric_names=["euclidean", "manhattan", "cosine"],
+                        xkinds=("normal",)))
+    if cls == "Douglas":
+        s["d"] = s["x"]["d"] = draw(st.sampled_from([5, 4, 3]))
+        s["n_cuts"] = draw(st.sampled_from([3, 2, 3]))
+        s["feature_mask"] = None
+    return {"spec": s, "m": draw(st.integers(1030, 4300)), "qseed": draw(gens.seeds)}
+
+
+def oracle_large(case):
+    """the same per-sample relation on query arrays of thousands of rows (blocked prediction paths)"""
+    s = case["spec"]
+    label = E.label(s) + f", query of {case['m']} rows"
+    X = E.build_data(s)
+    est, y = E.build(s, X)
+    with warnings.catch_warnings():
+        warnings.simplefilter("ignore")
+        with np.errstate(all="ignore"):
+            try:
+                est.fit(X, y)
+            except Exception as e:
+                return {"nontrivial": False, "classes": [s["cls"] + ":fit_raised"], "note": f"{type(e).__name__}: {e}"}
+            rs = np.random.RandomState(case["qseed"])
+            m, d = case["m"], X.shape[1]
+            Q = X[rs.randint(len(X), size=m)] + rs.randn(m, d) * 0.3
+            if E._data_nonneg(s):
+                Q = np.abs(Q)
+            P = est.predict_proba(Q)
+            if P.shape != (m, s["n_clusters"]) or not np.all(np.isfinite(P)) or np.max(np.abs(P.sum(1) - 1)) > 1e-9:
+                bad = np.where(~(np.abs(P.sum(1) - 1) <= 1e-9))[0][:5] if P.shape[0] == m else []
+                raise Violation(f"{label}: predict_proba rows are not probability vectors (first offending rows {list(bad)})")
+            idx = np.unique(np.concatenate([rs.choice(m, size=40, replace=False), np.arange(m - 25, m), np.arange(0, 5)]))
+            Ps = est.predict_proba(Q[idx])
+            if np.max(np.abs(Ps - P[idx])) > 1e-10:
+                r = idx[int(np.argmax(np.max(np.abs(Ps - P[idx]), axis=1)))]
+                raise Violation(f"{label}: row {r} is predicted differently alone / in a small array than inside the large array "
+                                f"(difference {np.max(np.abs(Ps - P[idx]))!r})")
+            pred = est.predict(Q)
+            if not np.array_equal(pred, P.argmax(1)):
+                raise Violation(f"{label}: predict is not the arg-max of predict_proba on the large array")
+    return {"nontrivial": bool(len(np.unique(pred)) >= 2), "classes": [s["cls"] + ":large"]}
+
+
 def subs():
-    return [Sub("gradient_models", case_strategy(False), oracle, 1500, 30000, "inductive gradient-trained estimators"),
+    return [Sub("large_queries", large_case(), oracle_large, 120, 2500, "query arrays of 1030-4300 rows"),
+            Sub("gradient_models", case_strategy(False), oracle, 1500, 30000, "inductive gradient-trained estimators"),
             Sub("kauri", case_strategy(True), oracle, 600, 12000, "Kauri routing")]
